@@ -208,3 +208,35 @@ def unit_reactions_driver(twin=False):
     r.assumptions += ["the getters of `use` and of the reactant blocks are pure", "kinetics step count (Get_kinetics_ptr()->Get_reaction_steps()) shares the getter name with REACTION's and is covered by the same bound",
                       "run_reactions / saver / copy_use / set_initial_moles are opaque calls here", "the step clock updates after run_reactions are C12.step_drivers.clock_advances..."]
     return r
+
+
+def unit_reaction_added_once(twin=False):
+    """run_reactions, stiff branch: the irreversible REACTION (and the mix) of the step is applied once - by the equilibration BEFORE the
+    integration, with the step fraction given; every equilibration that follows the CVode call distributes the integrated kinetic moles
+    only: no mixing and step fraction 0"""
+    q = "Phreeqc::run_reactions"
+    fn = A.find_function(KIN, q)
+    r = U.new_unit("C12.run_reactions.reaction_and_mix_applied_once_before_the_stiff_integration", KIN, q, fn)
+    calls = []
+    for x in A.walk(fn):
+        if x.get("kind") in ("CallExpr", "CXXMemberCallExpr"):
+            t = text_of(KIN, x)
+            m = re.match(r"^(set_and_run_wrapper|CVode)\((.*)\)$", t)
+            if m:
+                b, _e = A.src_range_text(x)
+                calls.append((b, m.group(1), [a.strip() for a in m.group(2).split(",")]))
+    calls.sort()
+    cv = [k for k, c_ in enumerate(calls) if c_[1] == "CVode"]
+    if not cv:
+        raise Undecided("CVode call of run_reactions not found")
+    before = [c_ for c_ in calls[:cv[0]] if c_[1] == "set_and_run_wrapper"]
+    after = [c_ for c_ in calls[cv[0]:] if c_[1] == "set_and_run_wrapper"]
+    pre = [c_ for c_ in before if len(c_[2]) == 5 and c_[2][4] == "step_fraction" and c_[2][2] == "FALSE"]
+    r.add("before.equilibration_with_the_step_fraction_and_without_kinetics", DISCHARGED if len(pre) >= 2 else FAILED, "ast-scan", 0, repr([c_[2] for c_ in before])[:200], kind="structural")
+    ok = bool(after) and all(len(c_[2]) == 5 and c_[2][1] == "NOMIX" and c_[2][4] in ("0", "0.", "0.0") for c_ in after)
+    if twin:
+        ok = ok and all(c_[2][4] == "step_fraction" for c_ in after)
+    r.add("after.kinetic_moles_distributed_without_mix_and_with_step_fraction_0", DISCHARGED if ok else FAILED, "ast-scan", 0, repr([c_[2] for c_ in after])[:200], kind="structural")
+    r.proved_kind = "structural"
+    r.assumptions += ["calls are read in source order (the stiff branch follows the equilibration branches in run_reactions); the arguments are compared as text"]
+    return r
